@@ -139,6 +139,22 @@ CHECKS = {
                     "after repetition 1 (a leak must persist after a settle loop and grow with every repetition)",
             "Cumulative-leak relation over generated lifecycle histories on real processes. Exploration.",
             "a constant one-off excess is attributed to first-use initialisation (trackers, atexit hooks)", "DESIGN.md §6 C20"),
+    "C12": ("REAL", "Hypothesis-generated process trees (shape, start methods, order and cause of each member's death, signals "
+                    "to the tracker at generated moments, tracker kills) run on real processes; oracle on tracker pid and pipe "
+                    "identity per member, tracker liveness under SIGINT/SIGTERM, existence of registered files while any member "
+                    "lives and their removal after the last one, relaunch with warning after SIGKILL of the tracker",
+            "Sharing, end-of-life timing and self-healing observed on generated trees and fault sequences on the real OS. "
+            "Exploration.",
+            "signals during the tracker's own start-up are placed by timing only (no hook inside the tracker start-up); "
+            "trees up to depth 3 / 5 members", "DESIGN.md §6 C12"),
+    "C13": ("REAL", "Hypothesis-generated histories of creating/discarding loky locks, semaphores, conditions, events, queues "
+                    "and executors (incl. copies sent to children, worker crashes) ended by exit / exception / os._exit / broken "
+                    "pool / SIGKILL of the parent at a generated op, on real processes; oracle on the /dev/shm "
+                    "sem.loky-<pid>-* namespace after del+gc and after the tree and tracker ended, and on tracker leak reports",
+            "Namespace-returns-to-prior-content invariant over generated histories and termination paths on the real OS. "
+            "Exploration.",
+            "abrupt parent endings (SIGKILL, os._exit) are generated without executors: orphaned workers outlive such a "
+            "parent by design and keep the tracker alive", "DESIGN.md §6 C13"),
 }
 
 NOT_YET = {}
